@@ -784,6 +784,7 @@ func runR_C14(c *Ctx) {
 	sweepHealth(c, ps...)
 	rR1(c, ps...)
 	rR2(c, ps...)
+	rConstIndex(c, ps...)
 	seen := map[string]int{}
 	texts := map[string]string{}
 	for _, p := range ps {
